@@ -481,13 +481,28 @@ def configurations():
         # circuits: the tree depends on (model, level, max_synth, err_thr);
         # the width only enters through the abstract start state.
         for width, ms, thr in ((5, 3, False), (2, lo, True), (1, 3, False),
-                               (3, max(lo, 4) if level == 1 else 3, True),
-                               (4, lo, False)):
+                               (3, max(lo, 4) if level == 1 else 3, True)):
             out.append(('circuit', level, mname, width, ms, thr))
         for kind in ('unitary', 'state', 'system'):
             for width, ms, thr in ((1, 3, False), (2, lo, True), (3, 3, False)):
                 out.append((kind, level, mname, width, ms, thr))
     return out
+
+
+def outside_compile_domain(width: int, model: MachineModel, ms: int) -> str:
+    """The argument checks `compile()` performs before it builds a workflow
+    (compile.py: max_synthesis_size against the largest native gate,
+    type_and_check_input); configurations it rejects are not serialised."""
+    gs = model.gate_set
+    if ms < max(g.num_qudits for g in gs):
+        return 'max_synthesis_size smaller than the largest native gate'
+    if model.num_qudits < width:
+        return 'machine too small'
+    if len(gs.multi_qudit_gates) == 0 and width > 1:
+        return 'no entangling gates'
+    if all(g.num_qudits > width for g in gs):
+        return 'every native gate is wider than the input'
+    return ''
 
 
 def model_facts(model: MachineModel, width: int, radix: int) -> dict:
@@ -535,6 +550,11 @@ def generate(out: Path = OUT) -> dict:
         model = make_model(mname, width)
         inp = make_input(kind, width, radix)
         ctx = Ctx(kind, level, width, radix, model, ms, thr, inp, mname)
+        why = outside_compile_domain(width, model, ms)
+        if why:
+            info.append({'name': f'{kind}/L{level}/{mname}/w{width}/ms{ms}',
+                         'refused': why})
+            continue
         try:
             with warnings.catch_warnings():
                 warnings.simplefilter('ignore')
@@ -575,11 +595,46 @@ def generate(out: Path = OUT) -> dict:
             f'pass := {term} }}')
         groups[kind].append(f'w{i}')
     lines.append('')
-    for kind, ws in groups.items():
-        lines.append(f'def {kind}WFs : List WF := [' + ', '.join(ws) + ']')
+    NCH = 4
+    for k in range(NCH):
+        lines.append(f'def circuitWFs{k} : List WF := ['
+                     + ', '.join(groups['circuit'][k::NCH]) + ']')
+    lines.append('def circuitWFs : List WF := '
+                 + ' ++ '.join(f'circuitWFs{k}' for k in range(NCH)))
+    for kind in ('unitary', 'state', 'system'):
+        lines.append(f'def {kind}WFs : List WF := ['
+                     + ', '.join(groups[kind]) + ']')
     lines.append(
         'def workflows : List WF := circuitWFs ++ unitaryWFs ++ stateWFs '
         '++ systemWFs')
+    lines.append('')
+    # named instances used by the witness theorems (first match in the grid)
+    wit = {
+        'witStatePrep': lambda k, l, m, w: k == 'state' and m == 'a2a-cx-u3'
+        and w == 2 and l == 1,
+        'witSystem': lambda k, l, m, w: k == 'system' and m == 'a2a-cx-u3'
+        and w == 2 and l == 1,
+        'witManySparse': lambda k, l, m, w: k == 'circuit'
+        and m == 'line-ccx-cx-u3' and w == 5 and l == 1,
+        'witUnitaryWide': lambda k, l, m, w: k == 'unitary'
+        and m == 'wide-line-cx-u3' and w == 2 and l == 1,
+        'witL4W1Wide': lambda k, l, m, w: k == 'circuit'
+        and m == 'wide-line-cx-u3' and w == 1 and l == 4,
+        'witQutritSQ': lambda k, l, m, w: k == 'circuit'
+        and m == 'a2a-qutrit' and w == 2 and l == 1,
+        'witNoSQ': lambda k, l, m, w: k == 'circuit'
+        and m == 'line-cx-nosq' and w == 5 and l == 1,
+        'witResynth': lambda k, l, m, w: k == 'circuit'
+        and m == 'line-cx-u3' and w == 5 and l == 3,
+    }
+    for wname, pr in wit.items():
+        for i, (name, kind, cfg, term) in enumerate(wfs):
+            k, l, m, w = name.split('/')[:4]
+            if pr(k, int(l[1:]), m, int(w[1:])):
+                lines.append(f'def {wname} : WF := w{i}')
+                break
+        else:
+            raise UnknownConstruct(f'no configuration for witness {wname}')
     lines.append('')
     lines.append('end BqVerif.Generated.Workflows')
     text = '\n'.join(lines) + '\n'
